@@ -58,6 +58,11 @@ def main():
         jobs = int(args[args.index("--jobs") + 1]); del args[args.index("--jobs"):args.index("--jobs") + 2]
     filt = [a for a in args if not a.startswith("--")]
     work = [(n, p, ALL if allc else c) for n, p, c in changes() if not filt or any(f in n for f in filt)]
+    if os.environ.get("MATRIX_SKIP"):
+        # resume: leave out the changes an earlier (interrupted) run already reported
+        with open(os.environ["MATRIX_SKIP"]) as f:
+            done = set(ln.split()[0] for ln in f if " caught by: " in ln and "exit2" not in ln)
+        work = [w for w in work if w[0] not in done]
     with concurrent.futures.ThreadPoolExecutor(max_workers=jobs) as ex:
         for name, res in ex.map(run_change, work):
             caught = [c for c, v in res.items() if v.startswith("caught")]
